@@ -59,6 +59,8 @@ def make_symbolic(self, decl, name):
     if kind == "nt":
         cls = self.resolve_class(decl[1])
         return NT(cls, [self.make_symbolic(t, f"{name}_{i}") for i, t in enumerate(decl[2])])
+    if kind == "listof":
+        return PList([self.make_symbolic(d, f"{name}[{i}]") for i, d in enumerate(decl[1])])
     if kind == "opt":
         flag = z3.Bool(self.path.fresh_name(name + "_is_none"))
         if self.path.branch(flag):
@@ -67,10 +69,18 @@ def make_symbolic(self, decl, name):
     if kind == "expr":
         return self.eval_spec_expr(decl[1], self.spec_env)
     if kind == "bytesn":
-        s = self.fresh(name, "bytes")
         n = decl[1]
         if isinstance(n, str):
             n = self.eval_spec_expr(n, self.spec_env)
+        if isinstance(n, int) and 0 < n <= 64 and len(decl) > 2 and decl[2]:
+            # fixed small length: a concatenation of n named byte constants (keeps offsets into it syntactic)
+            units = []
+            for i in range(n):
+                b = z3.Int(self.path.fresh_name(f"{name}.{i}"))
+                self.path.assume(z3.And(b >= 0, b <= 255))
+                units.append(z3.Unit(b))
+            return Sym(units[0] if n == 1 else z3.Concat(*units), "bytes")
+        s = self.fresh(name, "bytes")
         self.path.assume(z3.Length(s.t) == self.to_z3(n, "int"))
         return s
     if kind == "range":
